@@ -92,6 +92,7 @@ type interpreter struct {
 	funcs     map[string]int64
 	curV      uint64
 	fmtDepth  int
+	lastDump  int
 	vfsFiles  map[string]*vfsEntry
 	frozen    map[*value]bool
 	frozenMap map[*omap]bool
